@@ -876,14 +876,12 @@ func (k *Kernel) addFuturePrevote(
 ) AddVoteResult {
 	// NOTE: keep changes to this method synchronized with addFuturePrecommit.
 
-	// TODO: the mirror thought this was a future view,
-	// but it is possible that it changed from future to current
-	// before the kernel processed the request.
+	// The mirror thought this was a future view,
+	// but other messages may have moved the kernel to (or past) that round
+	// before the kernel processed this request.
+	// Then the caller has to look the view up again.
 	if _, _, vStatus := s.FindView(req.H, req.R, "(*Kernel).addFuturePrevote"); vStatus != ViewFuture {
-		panic(fmt.Errorf(
-			"TODO: handle addFuturePrevote when the view has changed from future to %s",
-			vStatus,
-		))
+		return AddVoteConflict
 	}
 
 	// It's still a future view.
@@ -984,14 +982,12 @@ func (k *Kernel) addFuturePrecommit(
 ) AddVoteResult {
 	// NOTE: keep changes to this method synchronized with addFuturePrevote.
 
-	// TODO: the mirror thought this was a future view,
-	// but it is possible that it changed from future to current
-	// before the kernel processed the request.
+	// The mirror thought this was a future view,
+	// but other messages may have moved the kernel to (or past) that round
+	// before the kernel processed this request.
+	// Then the caller has to look the view up again.
 	if _, _, vStatus := s.FindView(req.H, req.R, "(*Kernel).addFuturePrecommit"); vStatus != ViewFuture {
-		panic(fmt.Errorf(
-			"TODO: handle addFuturePrecommit when the view has changed from future to %s",
-			vStatus,
-		))
+		return AddVoteConflict
 	}
 
 	// It's still a future view.
